@@ -53,8 +53,7 @@ def run(ctx):
         ws = gen.gen_workspace(root, ctx.rng, depth=ctx.rng.randint(1, 3), venv=(i % 2 == 0))
         materialize(ws)
         one(ctx, ws.root, ws.abs_files(), ws.files, generated=True, spec=ws.spec)
-        if i < 2:
-            ctx.sample({"spec": ws.spec})
+        ctx.sample({"spec": ws.spec})
         shutil.rmtree(root, ignore_errors=True)
     # real-world files: the repository's example project (no unique tokens: location-returning features only)
     proj = "/repo/tests/test_project"
